@@ -8,13 +8,17 @@ for f in glob.glob("/tmp/mt/results*.jsonl"):
     for l in open(f):
         r = json.loads(l)
         res.setdefault(r["seed"], {})[(r["prop"], r.get("tier", "quick"), r.get("cfg"))] = r
-for d in sorted(glob.glob("/tmp/mut/C*/OUT")):
+SKIP = {"C19-4": "fails the existing randomized test most of the time"}
+for d in sorted(glob.glob("/tmp/mut/C*/OUT")) + sorted(glob.glob("/tmp/mut2/C*/OUT")):
     prop = d.split("/")[3]
+    off = 2 if d.startswith("/tmp/mut2/") else 0
     for i in (1, 2):
         p = os.path.join(d, f"patch{i}.diff")
         if not os.path.exists(p):
             continue
-        sid = f"{prop}-{i}"
+        sid = f"{prop}-{i + off}"
+        if sid in SKIP:
+            continue
         out = f"/verif/seeded/{sid}"
         os.makedirs(out, exist_ok=True)
         shutil.copy(p, os.path.join(out, "patch.diff"))
